@@ -131,6 +131,16 @@ def run(ctx):
         d = {"class": "trace_rejected_at_" + ev.get("ev", "?"), "config": {k: case[0][k] for k in ("n", "w", "outcome", "stopOnError", "preCancel", "cancelIn")}}
         return d
 
+    # Regression of the trace specification itself (not of the library): the legal schedule "job 1 fails and records
+    # the failure while job 2 is already inside its operation, then job 2 calls cancel()" - a store to a flag that is
+    # already set - must be accepted.  A UserCancel guarded by ~cancel rejected it, and whether the OS produced
+    # that schedule decided whether the check raised a false alarm.
+    st = os.path.join(vlib.SPECS, "conc", "selftest", "batch_cancel_after_store.ndjson")
+    ok_st, rej_st, res_st = vlib.trace_validate("conc", "BatchTrace", st)
+    ctx.add_tlc(res_st)
+    if not ok_st:
+        raise vlib.ToolError("BatchTrace rejects the legal schedule %s at %s" % (st, rej_st))
+
     vlib.validate_cases(ctx, "conc", "BatchTrace", tp, "recorded", describe=describe)
     cases = vlib.split_cases(clean)
     for c in cases:
